@@ -9,11 +9,12 @@
    [declared] constants, NOT against the model's tables) is evaluated on the
    implementation's observation.
 
+   verdict code = 3: the model's own observation fails the property inside the guard (drift), else
    verdict code = 10 * component + v,  v = 0 agree
                                         v = 1 model <> implementation, property holds on the observation
                                         v = 2 the property fails on the observation            *)
 From Coq Require Import List ZArith Bool String Ascii NArith.
-From Shoot Require Import Model.Enum.
+From Shoot Require Import Model.Enum Proofs.EnumTables.
 Import ListNotations.
 Local Open Scope string_scope.
 Local Open Scope Z_scope.
@@ -376,10 +377,19 @@ Definition Pb14 (c : case) (o : obs) : bool :=
 
 (* ------------------------------------------------------------------ verdicts *)
 
+(* the theorems' guard (Proofs/EnumTables.enum_guard + the receiver guard of -bit) *)
+Definition in_guard (c : case) : bool :=
+  enum_guard (c_pkg c) (c_type c) && (negb (f_bit (c_flags c)) || recv_ok (c_type c)).
+
+(* code 3: inside the guard the MODEL's own observation fails Pb -- the boolean
+   property and the theorems have drifted apart (never expected; reported as a
+   broken correspondence, not as a failing input) *)
 Definition verdict (Pb : case -> obs -> bool) (sel : list Z) (c : case) : N :=
   let o := c_obs c in
-  let comp := first_false_in sel 1 (components (model_obs c o) o) in
+  let m := model_obs c o in
+  let comp := first_false_in sel 1 (components m o) in
   if negb (Pb c o) then Z.to_N (10 * comp + 2)
+  else if in_guard c && negb (Pb c m) then 3%N
   else if comp =? 0 then 0%N else Z.to_N (10 * comp + 1).
 
 Fixpoint mismatches_from (v : case -> N) (i : N) (cs : list case) : list (N * N) :=
